@@ -111,6 +111,7 @@ func (f *sessionFam) endPhase(w *World) {
 		for _, r := range w.resps {
 			if r.Client == n && !r.Returned {
 				r.Aborted = true
+				r.WindUp = true
 				r.cancel()
 			}
 		}
